@@ -2,10 +2,14 @@ package c12
 
 import (
 	"fmt"
+	"math/big"
 	"sort"
 	"strings"
 	"testing"
 
+	"github.com/dominant-strategies/go-quai/common"
+	"github.com/dominant-strategies/go-quai/core/state"
+	"github.com/dominant-strategies/go-quai/core/types"
 	"pgregory.net/rapid"
 
 	"verifharness/stats"
@@ -275,4 +279,39 @@ func TestC12A_Regress_KnownFindings(t *testing.T) {
 			c12aReportViolation(t, part, ini, c.seq, shadow, res.viol)
 		}
 	}
+	c12aRegressSuicideSizeCrashForm(t)
+}
+
+// c12aRegressSuicideSizeCrashForm (run by TestC12A_Regress_KnownFindings) replays the crash form of the same finding: the slot
+// committed with the pre-state is cleared, a Suicide of the contract is reverted (the counter
+// stays at 0 instead of 1), and the next root computation deletes the slot, drives the counter
+// to -1 and panics in the account encoder. Reported under the finding's fingerprint: one root
+// cause, one repair.
+func c12aRegressSuicideSizeCrashForm(t *testing.T) {
+	env := c12aGetEnv(t)
+	const part = "regress"
+	s, err := state.New(env.richRoot, types.EmptyRootHash, new(big.Int).Set(env.richSize), env.db, env.db, nil, c12aLoc, env.logger)
+	if err != nil {
+		t.Fatalf("HARNESS: open rich pre-state: %v", err)
+	}
+	a := c12aAddr[0]
+	hist := []string{"SetState(A, slot0, 0)", "Snapshot", "Suicide(A)", "RevertToSnapshot", "IntermediateRoot(true)"}
+	s.SetState(a, c12aSlot[0], common.Hash{})
+	id := s.Snapshot()
+	s.Suicide(a)
+	s.RevertToSnapshot(id)
+	sizeAfterRevert := s.GetSize(a).String()
+	var crashed any
+	func() {
+		defer func() { crashed = recover() }()
+		s.IntermediateRoot(true)
+	}()
+	stats.Case(part, "suicide-size-crash-form", true, "known:"+c12aFpSuicideSize, "crash-form")
+	stats.Sample(part, map[string]any{"history": hist, "size_after_revert": sizeAfterRevert, "panic": fmt.Sprint(crashed)})
+	if crashed == nil && sizeAfterRevert == "1" {
+		stats.Note("known finding " + c12aFpSuicideSize + " (crash form) no longer reproduces on this tree")
+		return
+	}
+	stats.Violation(t, part, c12aFpSuicideSize, fmt.Sprintf("after a reverted Suicide the storage-size counter of A is %s (1 at the snapshot); IntermediateRoot then: %v", sizeAfterRevert, crashed),
+		map[string]any{"history": hist})
 }
